@@ -198,7 +198,7 @@ def evaluate(c):
                     res[(fn, order)] = 'rejected' if 'power is not positive' in d_ else 'rejected: ' + d_[:60]
                     continue
                 sd = report.parse_source_data(o_)
-                res[(fn, order)] = sorted((x['pulse'], x['impedance']) for x in sd)
+                res[(fn, order)] = sorted(((x['pulse'], x['impedance']) for x in sd), key=lambda t_: (t_[0], t_[1].real, t_[1].imag))
         ref = res.get(('abs', 0))
         for key, val in res.items():
             if isinstance(ref, str) or isinstance(val, str):
